@@ -14,55 +14,22 @@ def prop(pid, **kw):
     PROPS[pid] = kw
 
 
-prop("C11",
-     harness="c11_arrays",
-     runs={
-         "quick": [dict(flavour="asan", cases=51 + 12000), dict(flavour="rel", cases=51 + 30000)],
-         "thorough": [dict(flavour="asan", cases=1993 + 100000), dict(flavour="rel", cases=1993 + 300000),
-                      dict(flavour="memcheck", cases=2000 + 600, args=[], env={"VERIF_C11_SKIP_EXH": "1"})],
-     },
-     min_nontrivial={"quick": 10000, "thorough": 100000},
-     min_obs={"quick": {"exhaustive_blocks": 102, "random_histories": 10000, "alias_checks": 100, "arith_incompatible": 100},
-              "thorough": {"exhaustive_blocks": 3986, "random_histories": 100000}},
-     exhaustive={"quick": "all operation sequences of length 3 over the 1-D alphabet (VectorWithOffset, NumericVectorWithOffset, Array<1>)",
-                 "thorough": "all operation sequences of length 4 over the 1-D alphabet for the three 1-D classes"},
-     rule=("case = one block of 4000 sequences of the bounded-exhaustive enumeration (every sequence of the stated length over the "
-           "~40-entry 1-D operation alphabet, per class) or one random history (5..120/500 steps) on VectorWithOffset / "
-           "NumericVectorWithOffset / Array<1..4> / memory-viewing Array<1>; after every step the object is compared with a reference "
-           "index-range map (size, range, every element, iteration order, at() inside/outside, equality, aliasing of viewed memory). "
-           "non-trivial = sequence of >= 2 operations (exhaustive) or history of >= 5 steps; distinct = distinct sequence index / "
-           "distinct generated history descriptor"),
-     technique="runtime monitoring: history + executable reference map, bounded-exhaustive and random operation histories under ASan/UBSan/asserts and memcheck",
-     level_text=("every operation sequence up to a fixed length over a ~40-operation alphabet (exhaustive) plus thousands of long random "
-                 "histories on 1-4 dimensional owning and memory-viewing arrays are executed against the real classes; after every step "
-                 "the complete observable state is compared with a reference index-range map while ASan/UBSan and STIR's re-armed "
-                 "asserts watch every access; thorough adds valgrind memcheck for reads of never-written storage"),
-     level_note=("trusted: the 150-line reference map in harness/c11_arrays.cxx, clang-14 sanitizer runtimes, valgrind; arrays containing "
-                 "empty sub-arrays and arithmetic with exactly one empty operand are outside the documented contract and not exercised"),
-     assumptions=["values are small integers stored as float so arithmetic in the model is exact",
-                  "arithmetic with exactly one empty operand is only checked where the documentation pins the result down"],
-     )
 
-prop("C01",
-     harness="c01_detpairs",
-     runs={
-         "quick": [dict(flavour="asan", cases=600), dict(flavour="rel", cases=3000)],
-         "thorough": [dict(flavour="asan", cases=1500), dict(flavour="rel", cases=12000)],
-     },
-     min_nontrivial={"quick": 1500, "thorough": 5000},
-     min_obs={"quick": {"cfg_axial_compression": 50, "cfg_view_mashing": 50, "cfg_tof": 10, "cfg_tof_mashed": 5, "cfg_even_span": 20,
-                        "inverse_roundtrips": 1000, "ring_pairs_checked": 1000},
-              "thorough": {"cfg_axial_compression": 1000, "cfg_tof_mashed": 100}},
-     rule=("case = one generated (scanner, sampling) configuration: even detector count, 1..5/8 rings, span (odd and even), max ring "
-           "difference, view mashing, TOF mashing (odd), tangential/segment truncation, mixed-span GE layout, cylindrical and "
-           "blocks-on-cylindrical; thorough adds predefined scanners.  Per configuration ALL ordered detector pairs x ring pairs x "
-           "unmashed TOF indices are swept (factorised for >6e6 combinations).  non-trivial = at least one bin has contributors and at "
-           "least one pair is assigned; distinct = distinct configuration descriptor"),
-     technique="runtime monitoring: exhaustive per-configuration sweep of the real pair<->bin maps checked against the partition/inverse relations, under ASan/UBSan/asserts",
-     level_text=("for each of hundreds (quick) / thousands (thorough) of generated geometries the forward map is evaluated on every "
-                 "ordered detector pair x ring pair x TOF index, its inverse image is built, and every bin's reported contributor list, "
-                 "count, the uncompressed bin<->pair inverses, the swap/TOF-negation rule and the ring-pair partition are compared "
-                 "exactly (integers); the asan flavour re-arms STIR's table-index asserts"),
-     level_note="trusted: the comparison code in harness/c01_detpairs.cxx; user-defined geometries outside the generated family and ProjDataInfoGeneric crystal maps are not covered",
-     assumptions=["TOF mashing factors are restricted to odd values (even ones are documented as unsupported by get_all_det_pos_pairs_for_bin)"],
-     )
+
+def _load():
+    import glob
+    import importlib
+    import os
+    d = os.path.join(os.path.dirname(os.path.abspath(__file__)), "propdefs")
+    for f in sorted(glob.glob(os.path.join(d, "c*.py"))):
+        importlib.import_module("vlib.propdefs." + os.path.basename(f)[:-3])
+
+
+_loaded = False
+
+
+def load():
+    global _loaded
+    if not _loaded:
+        _loaded = True
+        _load()
